@@ -9,7 +9,7 @@ From Coq Require Import List ZArith QArith String Permutation Sorted.
 From Lungo.Model Require Import Apply.
 From Lungo.Gen Require Import UpdateOps.
 From Lungo.Spec Require Import RefUpdate.
-From Lungo.Proofs Require Import AccessAlgebra ApplyProofs ArithProofs GenUpdateOps RefUpdateProofs.
+From Lungo.Proofs Require Import AccessAlgebra ApplyProofs ArithProofs GenUpdateOps RefUpdateProofs ChangesFaithful.
 Import ListNotations.
 Open Scope string_scope.
 Open Scope Z_scope.
@@ -149,13 +149,58 @@ Theorem C11_idempotence_refuted :
 Proof. exact (idempotence_refuted _). Qed.
 Print Assumptions C11_idempotence_refuted.
 
-(* a '$' inside a path segment makes the update hit another field *)
-Theorem C11_dollar_inside_segment_refuted :
+(* a positional operator is only recognised at the start of a path segment
+   (/repo 4eddedf): the path is cut exactly at a '.' separator, so the array
+   that is resolved is named by a true segment prefix of the path in the update *)
+Theorem C11_split_dollar_at_segment_start : forall ps before rest,
+  split_dollar ps = Some (before, rest) ->
+  ps = (before ++ rest)%string /\ starts_dollar rest = true /\
+  (before = "" \/ before = (drop_last before ++ ".")%string).
+Proof. exact split_dollar_at_segment_start. Qed.
+Print Assumptions C11_split_dollar_at_segment_start.
+
+(* the former witness: "ab$[].c" is a plain path; the field "a" is untouched *)
+Theorem C11_dollar_inside_segment_is_plain :
+  plain "ab$[].c" /\
   Apply [("a", VArr [VDoc [("c", VInt32 1)]]); ("k", VInt32 0)] []
         [("$mul", VDoc [("ab$[].c", VInt32 2)])] false [] 0 =
-  Ok ([("a", VArr [VDoc [("c", VInt32 2)]]); ("k", VInt32 0)], [("a.0.c", VInt32 2)]).
-Proof. exact (dollar_inside_segment_refuted _). Qed.
-Print Assumptions C11_dollar_inside_segment_refuted.
+  Ok ([("a", VArr [VDoc [("c", VInt32 1)]]); ("k", VInt32 0); ("ab$[]", VDoc [("c", VInt32 0)])],
+      [("ab$[].c", VInt32 0)]).
+Proof. exact (dollar_inside_segment_is_plain _). Qed.
+Print Assumptions C11_dollar_inside_segment_is_plain.
+
+(* ------------------------------------------------------------------ *)
+(* Changed describes the update (C08 direction): replaying the recorded
+   changes — Put for a value, Unset for Missing — in the order of recording on
+   the ORIGINAL document yields the resulting document.  Partial: updates
+   without $rename; values without the Missing marker; recorded $push index
+   segments within the model's array-extension limit (10^8). *)
+Theorem C11_apply_changes_faithful_partial : forall d q u up fs now d' sorted,
+  no_rename u -> has_missing (VDoc u) = false ->
+  Apply d q u up fs now = Ok (d', sorted) ->
+  exists ch, Permutation ch sorted /\ sorted = sort_changes ch /\
+             (small_changes ch -> replay ch d = Ok d').
+Proof. exact (apply_changes_faithful _). Qed.
+Print Assumptions C11_apply_changes_faithful_partial.
+
+(* the $push fix (/repo f8e1696): the recorded changes of a $push, applied as
+   $sets to the original document, reproduce the new document *)
+Theorem C11_push_changes_faithful : forall d q pairs up fs now d' sorted,
+  has_missing (VDoc pairs) = false ->
+  Apply d q [("$push", VDoc pairs)] up fs now = Ok (d', sorted) ->
+  exists ch, Permutation ch sorted /\ (small_changes ch -> replay ch d = Ok d').
+Proof. exact (push_changes_faithful _). Qed.
+Print Assumptions C11_push_changes_faithful.
+
+(* Changed is an unordered map: replayed in PATH order it reproduces the
+   document only up to the order of newly appended fields *)
+Theorem C11_replay_sorted_refuted :
+  Apply [] [] [("$set", VDoc [("b", VInt32 1); ("a", VInt32 2)])] false [] 0 =
+    Ok ([("b", VInt32 1); ("a", VInt32 2)], [("a", VInt32 2); ("b", VInt32 1)]) /\
+  replay [("a", VInt32 2); ("b", VInt32 1)] [] = Ok [("a", VInt32 2); ("b", VInt32 1)] /\
+  replay [("b", VInt32 1); ("a", VInt32 2)] [] = Ok [("b", VInt32 1); ("a", VInt32 2)].
+Proof. exact (replay_sorted_refuted _). Qed.
+Print Assumptions C11_replay_sorted_refuted.
 
 (* an update whose result is identical to the input is not counted modified *)
 Theorem C11_noop_reports_unchanged : forall d q u up fs now d' ch,
@@ -209,7 +254,6 @@ Print Assumptions C11_ref_pull_all_partial.
 (* $push with $each/$position/$sort/$slice = slice (sort (insert_at position)) *)
 Theorem C11_ref_push_partial : forall d ch ps each p dir n arr d' ch',
   canon_path (split_path ps) -> Get d ps = VArr arr ->
-  - two63 < n < two63 -> len arr + len each < two63 ->
   apply_push (d, ch) ps
     (VDoc [("$each", VArr each); ("$position", VInt64 p); ("$sort", VInt32 dir); ("$slice", VInt64 n)]) = Ok (d', ch') ->
   exists sorted,
@@ -234,75 +278,115 @@ Proof. exact apply_rename_ref. Qed.
 Print Assumptions C11_ref_rename_partial.
 
 (* ------------------------------------------------------------------ *)
-(* numeric rules *)
+(* numeric rules (after /repo 5082d2f: promotion and rejection) *)
 
+(* result type: the wider operand type, int32 op int32 promoted to int64 when
+   it does not fit, or the operation is rejected (Missing) *)
 Theorem C11_add_type : forall a b r,
-  is_num a = true -> is_num b = true -> Add a b = Ok r -> num_rank r = Z.max (num_rank a) (num_rank b).
+  is_num a = true -> is_num b = true -> Add a b = Ok r -> result_rank_ok a b r.
 Proof. exact add_type. Qed.
 Print Assumptions C11_add_type.
 
 Theorem C11_mul_type : forall a b r,
-  is_num a = true -> is_num b = true -> Mul a b = Ok r -> num_rank r = Z.max (num_rank a) (num_rank b).
+  is_num a = true -> is_num b = true -> Mul a b = Ok r -> result_rank_ok a b r.
 Proof. exact mul_type. Qed.
 Print Assumptions C11_mul_type.
 
-Theorem C11_add_exact_int : forall a b x y,
-  int_of a = Some x -> int_of b = Some y -> fits (Z.max (num_rank a) (num_rank b)) (x + y) ->
-  exists r, Add a b = Ok r /\ int_of r = Some (x + y) /\ num_rank r = Z.max (num_rank a) (num_rank b).
-Proof. exact add_exact_int. Qed.
-Print Assumptions C11_add_exact_int.
+(* integers, the full statement: with z the mathematical result, int32 op
+   int32 is int32 z if it fits and int64 z otherwise; every other integer pair
+   is int64 z if it fits and rejected otherwise *)
+Theorem C11_add_int_full : forall a b x y,
+  int_of a = Some x -> int_of b = Some y -> Add a b = Ok (int_result a b (x + y)).
+Proof. exact add_int_full. Qed.
+Print Assumptions C11_add_int_full.
 
-Theorem C11_mul_exact_int : forall a b x y,
-  int_of a = Some x -> int_of b = Some y -> fits (Z.max (num_rank a) (num_rank b)) (x * y) ->
-  exists r, Mul a b = Ok r /\ int_of r = Some (x * y) /\ num_rank r = Z.max (num_rank a) (num_rank b).
-Proof. exact mul_exact_int. Qed.
-Print Assumptions C11_mul_exact_int.
+Theorem C11_mul_int_full : forall a b x y,
+  int_of a = Some x -> int_of b = Some y -> Mul a b = Ok (int_result a b (x * y)).
+Proof. exact mul_int_full. Qed.
+Print Assumptions C11_mul_int_full.
 
-(* MongoDB promotes an overflowing int32 to int64 and rejects an int64
-   overflow; lungo wraps around: the full statement is refuted ... *)
-Theorem C11_int_overflow_refuted :
-  Add (VInt32 2147483647) (VInt32 1) = Ok (VInt32 (-2147483648)) /\
-  Add (VInt64 9223372036854775807) (VInt64 1) = Ok (VInt64 (-9223372036854775808)) /\
-  Mul (VInt32 65536) (VInt32 65536) = Ok (VInt32 0) /\
-  ~ add_promotes.
-Proof. exact int_overflow_refuted. Qed.
-Print Assumptions C11_int_overflow_refuted.
+(* MongoDB's promotion rule (formerly refuted): the result is the mathematical
+   sum, typed int32 iff both operands are int32 and it fits; there is no
+   result exactly when an int64 sum overflows *)
+Theorem C11_add_promotes : forall a b x y r,
+  int_of a = Some x -> int_of b = Some y -> Add a b = Ok r ->
+  (int_of r = Some (x + y) /\
+   num_rank r = (if (num_rank a =? 0) && (num_rank b =? 0) && in_int32 (x + y) then 0 else 1)) \/
+  (r = VMissing /\ ~ in64 (x + y) /\ Z.max (num_rank a) (num_rank b) = 1).
+Proof. exact add_promotes. Qed.
+Print Assumptions C11_add_promotes.
 
-(* ... and holds when the sum fits the wider operand type *)
-Theorem C11_add_promotes_partial : forall a b x y r,
-  int_of a = Some x -> int_of b = Some y -> fits (Z.max (num_rank a) (num_rank b)) (x + y) ->
-  Add a b = Ok r -> int_of r = Some (x + y).
-Proof. exact add_promotes_partial. Qed.
-Print Assumptions C11_add_promotes_partial.
+Theorem C11_mul_promotes : forall a b x y r,
+  int_of a = Some x -> int_of b = Some y -> Mul a b = Ok r ->
+  (int_of r = Some (x * y) /\
+   num_rank r = (if (num_rank a =? 0) && (num_rank b =? 0) && in_int32 (x * y) then 0 else 1)) \/
+  (r = VMissing /\ ~ in64 (x * y) /\ Z.max (num_rank a) (num_rank b) = 1).
+Proof. exact mul_promotes. Qed.
+Print Assumptions C11_mul_promotes.
 
-(* a Decimal128 product with more than 34 significant digits becomes 0 *)
-Theorem C11_decimal_overflow_refuted :
-  dec_value dec_a = Some (1234567890123456789012345678901234 # 1) /\
-  dec_value dec_b = Some (12345678901234567 # 1) /\
-  Mul dec_a dec_b = Ok (VDecimal 0 0) /\
-  dec_decode 0 0 = DFin 0 (-6176) /\
-  ~ mul_decimal_exact.
-Proof. exact decimal_overflow_refuted. Qed.
-Print Assumptions C11_decimal_overflow_refuted.
+Theorem C11_int32_never_rejected : forall x y,
+  in32 x -> in32 y ->
+  (exists r, Add (VInt32 x) (VInt32 y) = Ok r /\ int_of r = Some (x + y)) /\
+  (exists r, Mul (VInt32 x) (VInt32 y) = Ok r /\ int_of r = Some (x * y)).
+Proof. exact int32_never_rejected. Qed.
+Print Assumptions C11_int32_never_rejected.
 
-(* what does hold for Decimal128: a sum / product whose exact coefficient has
-   at most 34 digits and whose exponent is in range is stored exactly *)
-Theorem C11_mul_decimal_exact_partial : forall h1 l1 h2 l2 c1 e1 c2 e2,
+(* a rejected arithmetic result rejects the update: $inc / $mul answer Err *)
+Theorem C11_arith_rejection_rejects_update : forall f s ps v,
+  f (if is_missing (Get (fst s) ps) then VInt32 0 else Get (fst s) ps) v = Ok VMissing ->
+  apply_arith f s ps v = Err.
+Proof. exact arith_rejection_rejects_update. Qed.
+Print Assumptions C11_arith_rejection_rejects_update.
+
+(* Decimal128 (formerly refuted): the stored result denotes exactly the
+   mathematical product / sum, or the operation is rejected *)
+Theorem C11_mul_decimal_exact_or_rejected : forall h1 l1 h2 l2 c1 e1 c2 e2 r,
+  dec_decode h1 l1 = DFin c1 e1 -> dec_decode h2 l2 = DFin c2 e2 ->
+  Mul (VDecimal h1 l1) (VDecimal h2 l2) = Ok r ->
+  r = VMissing \/
+  exists h l c' e', r = VDecimal h l /\ dec_decode h l = DFin c' e' /\ same_decimal (c1 * c2) (e1 + e2) c' e'.
+Proof. exact mul_decimal_exact_or_rejected. Qed.
+Print Assumptions C11_mul_decimal_exact_or_rejected.
+
+Theorem C11_add_decimal_exact_or_rejected : forall h1 l1 h2 l2 c1 e1 c2 e2 r,
+  dec_decode h1 l1 = DFin c1 e1 -> dec_decode h2 l2 = DFin c2 e2 ->
+  Add (VDecimal h1 l1) (VDecimal h2 l2) = Ok r ->
+  let e := Z.min e1 e2 in
+  let c := c1 * zpow 10 (e1 - e) + c2 * zpow 10 (e2 - e) in
+  r = VMissing \/
+  exists h l c' e', r = VDecimal h l /\ dec_decode h l = DFin c' e' /\ same_decimal c e c' e'.
+Proof. exact add_decimal_exact_or_rejected. Qed.
+Print Assumptions C11_add_decimal_exact_or_rejected.
+
+(* ... and it is not rejected when the exact result fits as it is *)
+Theorem C11_mul_decimal_fits : forall h1 l1 h2 l2 c1 e1 c2 e2,
   dec_decode h1 l1 = DFin c1 e1 -> dec_decode h2 l2 = DFin c2 e2 ->
   Z.abs (c1 * c2) <= d128_maxS -> d128_min_exp <= e1 + e2 <= d128_max_exp ->
   exists h l, Mul (VDecimal h1 l1) (VDecimal h2 l2) = Ok (VDecimal h l) /\
               dec_decode h l = DFin (c1 * c2) (e1 + e2).
-Proof. exact mul_decimal_exact_partial. Qed.
-Print Assumptions C11_mul_decimal_exact_partial.
+Proof. exact mul_decimal_fits. Qed.
+Print Assumptions C11_mul_decimal_fits.
 
-Theorem C11_add_decimal_exact_partial : forall h1 l1 h2 l2 c1 e1 c2 e2,
+Theorem C11_add_decimal_fits : forall h1 l1 h2 l2 c1 e1 c2 e2,
   dec_decode h1 l1 = DFin c1 e1 -> dec_decode h2 l2 = DFin c2 e2 ->
   let e := Z.min e1 e2 in
   let c := c1 * zpow 10 (e1 - e) + c2 * zpow 10 (e2 - e) in
   Z.abs c <= d128_maxS -> d128_min_exp <= e <= d128_max_exp ->
   exists h l, Add (VDecimal h1 l1) (VDecimal h2 l2) = Ok (VDecimal h l) /\ dec_decode h l = DFin c e.
-Proof. exact add_decimal_exact_partial. Qed.
-Print Assumptions C11_add_decimal_exact_partial.
+Proof. exact add_decimal_fits. Qed.
+Print Assumptions C11_add_decimal_fits.
+
+(* the former counter-examples *)
+Example C11_ex_promotion_and_rejection :
+  Add (VInt32 2147483647) (VInt32 1) = Ok (VInt64 2147483648) /\
+  Mul (VInt32 65536) (VInt32 65536) = Ok (VInt64 4294967296) /\
+  Add (VInt64 9223372036854775807) (VInt64 1) = Ok VMissing /\
+  Mul (VInt64 (-9223372036854775808)) (VInt32 (-1)) = Ok VMissing /\
+  Mul dec_a dec_b = Ok VMissing /\
+  Apply [("n", VInt64 9223372036854775807)] [] [("$inc", VDoc [("n", VInt64 1)])] false [] 0 = Err /\
+  Apply [("n", VInt32 2147483647)] [] [("$inc", VDoc [("n", VInt32 1)])] false [] 0 =
+    Ok ([("n", VInt64 2147483648)], [("n", VInt64 2147483648)]).
+Proof. vm_compute. repeat split; reflexivity. Qed.
 
 (* ------------------------------------------------------------------ *)
 (* non-vacuity: concrete inputs meet the hypotheses and the conclusions are
@@ -360,10 +444,10 @@ Example C11_ex_push_modifiers :
 Proof. vm_compute. repeat split; reflexivity. Qed.
 
 Example C11_ex_numeric :
-  Add (VInt32 1) (VInt64 2) = Ok (VInt64 3) /\ fits 1 3 /\
+  Add (VInt32 1) (VInt64 2) = Ok (VInt64 3) /\ in64 3 /\
   Add (VInt32 1) (VDouble 4609434218613702656) = Ok (VDouble 4612811918334230528) /\   (* 1 + 1.5 = 2.5 *)
   Mul (VInt64 3) (VDecimal 3476215962376601600 15) = Ok (VDecimal 3476215962376601600 45). (* 3 * 1.5 = 4.5 *)
-Proof. vm_compute. repeat split; try reflexivity; discriminate. Qed.
+Proof. repeat split; try reflexivity; vm_compute; discriminate. Qed.
 
 Example C11_ex_unset :
   uniq_keys (VDoc ex_doc) /\
